@@ -2,6 +2,7 @@
 from core import Rule
 from absint import Interp, Obj, Term, Variant, Panic, CannotEstablish
 import synq
+from synq import canon
 
 PROPERTY = "C08"
 TITLE = "Integer and float operations and casts have exact two's-complement semantics"
@@ -399,11 +400,40 @@ def r08e(ctx, run):
         raise LookupError("results of compile_binary: %d" % n_res)
 
 
+def r08f(ctx, run):
+    """the type an operation is PERFORMED in: wherever compile_stmt / compile_binary hand operands to the selection functions, the type that goes with
+    them is the common type of the two operand types (Ty::max) - on every branch.  Doing `dest op= value` in the destination's type because "the
+    result is truncated anyway" is wrong for / and %: `i8 100 /= i32 300` is 0, not 100 / 44."""
+    import prov
+    CG = "codegen/src/compiler/functions.rs"
+    n = 0
+    for qual in ("FunctionCompiler::compile_stmt", "FunctionCompiler::compile_binary"):
+        fn = ctx.syn.fn(qual, CG)
+        P = prov.Prov(fn)
+        sites = []
+
+        def on(nd, sc):
+            if nd.get("k") == "mcall" and nd["m"] in ("compile_complex_compare", "compile_num_binary") and canon(nd["r"]) == "self" and len(nd["a"]) == 4:
+                sites.append((nd, sc))
+        P.visit(on)
+        for nd, sc in sites:
+            n += 1
+            alts = P.alternatives(nd["a"][2], sc)
+            bad = [a for a in alts if "m:max" not in a]
+            run.check(not bad, fn.site(nd["ln"]), "%s: %s operates in the common type of its operands on all %d branch(es)" % (qual.rsplit("::", 1)[-1], nd["m"], len(alts)), fn.qual,
+                      "operation-type:" + nd["m"], fn.file, nd["ln"],
+                      "%s hands %s a type that, on one branch, is not the common type of the two operands (Ty::max) but computed from %s: for / and %% (and comparisons) the operation "
+                      "in a narrower type gives another result (`i8 100 /= i32 300` must be 0)" % (fn.qual, nd["m"], sorted(t for t in (bad[0] if bad else set()) if not t.startswith("expr:"))[:6]))
+    if n < 2:
+        raise LookupError("operand hand-overs to the selection functions: %d" % n)
+
+
 def rules(ctx):
     return [
         Rule("R08.a", "binary operator -> Cranelift instruction table (signedness-dependent members on the signed branch)", 27, r08a),
         Rule("R08.b", "cast_num decision tree: extension by source signedness, no narrowing before int->float, float->int converts at >= target width", 144, r08b),
         Rule("R08.c", "finalize_int width/signedness table and its callers", 20, r08c),
         Rule("R08.e", "every numeric binary expression takes its instruction from the selection table: compile_binary emits no arithmetic of its own", 5, r08e),
+        Rule("R08.f", "binary operations and compound assignments are performed in the common type of their operands (Ty::max) on every branch", 2, r08f),
         Rule("R08.d", "index/exit casts target unsigned; callers of the two selection functions enumerated", 3, r08d),
     ]
